@@ -9,6 +9,7 @@ CONSTANTS
   PhaseSet = {"renegotiating"}
   Ev1Set = {}
   WfcBudget = 2
+  Answerer = FALSE
   Ev2Set = {}
   MaxSilent = 8
 VIEW tview
